@@ -870,6 +870,9 @@ def mon_outage(session, ev, name, before, out_i, crash_i):
 
 def run_C20(res, tier, seed, t_end, bad):
     # small scope, in full: every assignment of roles to 2 connections (sample of 3) closed back to back, every close/gc pattern
+    Mx.run_cases(res, 'C20', Mx.lifecycle_name_cases(), tier, seed, t_end, 100, (Mn.mon_track_queue, Mn.mon_pubsub), None, label='lifecycle-names')
+    if res.findings:
+        return
     Mx.run_cases(res, 'C20', Mx.lifecycle_cases((2,)), tier, seed, t_end, 100, (Mn.mon_track_queue, Mn.mon_pubsub), None, label='lifecycle-2')
     if not res.findings:
         Mx.run_cases(res, 'C20', Mx.lifecycle_cases((3,)), tier, seed, t_end, 120, (Mn.mon_track_queue, Mn.mon_pubsub), None, label='lifecycle-3')
@@ -933,6 +936,10 @@ def run_C12(res, tier, seed, t_end, bad):
             res.add({'kind': 'threads', 'verdict': 'violation', 'property': 'C12', 'clause': 'same_data', 'detail': 'split databases'})
             return
     constructor_race(res, tier, seed, t_end)
+    if not res.findings:
+        # EXEC blocks with blocking pops inside never release the lock half-way (scheduler harness: a wait would hand the lock over)
+        import blocking as Bl
+        Bl.run_exec_atomic(res, seed, 'C12')
     if not res.findings:
         # a lock-free close() from another thread landing at every point of the clean-up loop (deterministic stand-in for the race)
         import clientlevel
